@@ -42,12 +42,32 @@ func runC13(c *CaseCtx) {
 	}
 	defer run.Close()
 	g := &Gen{R: r, U: u, Cfg: cfg, KV: true, List: ds, Set: ds, ZSet: ds, MaxOps: 5}
+	if cfg.Mode != 2 && c.Case%5 == 1 {
+		// every transaction of this history runs on a handle that has already merged (before any of the history's
+		// buckets and structures existed)
+		preMergeHandle(c, run.DB, cfg) // (same scenario class: the recorded committed-view finding is the same on such a handle)
+	}
+	drainAt := -1
+	if cfg.Mode != 2 && c.Case%5 == 3 {
+		// half way one bucket is emptied, the database merged, the same keys put again (no lists and no positional
+		// sorted-set removals in such a history: what Merge does to those is the recorded finding of C15/C16)
+		g.List, g.NoZPop = false, true
+	}
 	ntx := 15 + r.Intn(tier(c.Tier, 20, 60))
+	if cfg.Mode != 2 && c.Case%5 == 3 {
+		drainAt = ntx / 2
+	}
 	selfReads := 0
 	for i := 0; i < ntx && !run.Dead; i++ {
 		g.M = run.M
+		if i == drainAt {
+			if !drainMergeReput(run, g, class) {
+				break
+			}
+			g.M = run.M
+		}
 		t := g.WriteTx(false)
-		if tpl := c13Template(g, ds); tpl != nil && r.Intn(4) == 0 {
+		if tpl := c13Template(g, g.List); tpl != nil && r.Intn(4) == 0 {
 			t.Ops = tpl
 			c.Stat("remove_readd_pop_templates", 1)
 		} else if r.Intn(8) == 0 {
